@@ -126,6 +126,13 @@ def run(prop):
     from . import variants
     for v in variants.for_property(prop):
         todo.append(("builtin:" + v["name"], None, v.get("expect", "violation"), v))
+
+    def _fmt(d):
+        # mechanical re-formatting of every source file (bin/format-twin): layout, comments and quoting change, behaviour does not
+        p = subprocess.run([os.path.join(core.VERIF, "bin", "format-twin"), d], stdout=subprocess.PIPE, stderr=subprocess.STDOUT)
+        if p.returncode != 0:
+            raise variants.Skip("bin/format-twin failed: %s" % p.stdout.decode("utf-8", "replace")[:200])
+    todo.append(("twin:FMT", None, "silent", {"apply": _fmt, "rules": []}))
     with ThreadPoolExecutor(max_workers=int(os.environ.get("VP_JOBS", "16"))) as ex:
         results = list(ex.map(lambda t: _one(prop, *t), todo))
     for res in results:
